@@ -269,8 +269,9 @@ PROPS = {
                       "start with an XML declaration.",
         "level_note": "Trusted: codec behaviour (uninterpreted bytes.decode with BOM axioms, "
                       "conformance-tested); BOM table read from the live module on this (little-endian) "
-                      "host. Assumed contracts: read_xml_encoding, detect_encoding (regex bodies).",
-        "units": [K("utils.py::read_bytes")],
+                      "host; regex matches as uninterpreted functions of the searched text. Assumed "
+                      "contract: read_xml_encoding (bytes regex body).",
+        "units": [K("utils.py::read_bytes"), K("utils.py::detect_encoding")],
         "not_decided": ["RE_META fixes the attribute order http-equiv before content (finding D16)",
                         "template.write/read/parse plumbing (pending)"],
         "assumptions": COMMON_ASSUMPTIONS + ["bytes are modelled as strings of code points 0..255"],
@@ -296,7 +297,8 @@ PROPS = {
         "level_note": "Trusted: the axiom schemas for str/re builtins (conformance-tested each run), "
                       "CPython's re engine, the encoding of Python semantics in DESIGN.md 2.3. "
                       "Not decided: 'valid templates are never rejected'; message formatting.",
-        "units": TOKEN,
+        "units": TOKEN + [K("k3::S-Strict-rejects"), K("k3::S-Deferred-twice"),
+                          U('pyvc.frames', 'decorator_audit', 'decorator_audit')],
         "not_decided": ["'A template without such an error is never rejected' (needs a notion of "
                         "validity independent of the implementation)",
                         "str(exc) formatting (compute_source_marker uses float arithmetic)"],
